@@ -119,6 +119,12 @@ def translate(mnem, ops_txt, rawbytes):
             return ("sem_mov_mr", [ops[0][2], c_int(ops[0][3]), ops[1][1]], False)
     if mnem in ("add", "sub") and kinds == ("r", "i"):
         return ("sem_%s_ri" % mnem, [ops[0][1], c_int(ops[1][1])], False)
+    if mnem in ("and", "or", "xor") and kinds == ("m", "i") and ops[0][1] == 32:
+        return ("sem_alu_m32i", ["'%s'" % mnem[0], ops[0][2], c_int(ops[0][3]), c_int(ops[1][1])], False)
+    if mnem in ("and", "or") and kinds == ("r", "i"):
+        return ("sem_alu_ri", ["'%s'" % mnem[0], ops[0][1], c_int(ops[1][1])], False)
+    if mnem == "mov" and kinds == ("r", "i"):
+        return ("sem_mov_ri", [ops[0][1], c_int(ops[1][1])], False)
     if mnem == "xor" and kinds == ("r", "r"):
         return ("sem_xor_rr", [ops[0][1], ops[1][1]], False)
     if mnem in ("stmxcsr", "ldmxcsr") and kinds == ("m",) and ops[0][1] == 32:
